@@ -14,8 +14,9 @@
 import copy, itertools
 import overlay_common as oc
 
-def X(raw, expect='same', mod=False, fn=None, must=False):
-    return {'k': 'x', 'raw': raw, 'p': (raw.split() + ['', ''])[1], 'expect': expect, 'mod': mod, 'fn': fn, 'must': must, 'dump': True}
+def X(raw, expect='same', mod=False, fn=None, must=False, want=None, sigx=None):
+    return {'k': 'x', 'raw': raw, 'p': (raw.split() + ['', ''])[1], 'expect': expect, 'mod': mod, 'fn': fn, 'must': must, 'dump': True,
+            'want': want, 'sigx': sigx}
 
 def F(data, ino, mode=0o644): return ['f', mode, bytearray(data), {}, ino]
 def base_layers(upper=True, big=False):
@@ -140,6 +141,19 @@ def free_cases(prop, restart):
         add('xo%d' % upper, [X('read a 0 8', 'any'), X('write a 0 58 w', 'any', mod=True), X('write d/f 0 58 r', 'any', mod=True), X('truncate a 1', 'any', mod=True),
                              X('create e 1a4', 'any', mod=True), X('open a r+t', 'any', mod=True), X('flush a r', 'any')], upper, cfg='o')
         add('xr%d' % upper, [X('readdir d', 'any'), X('lookup d/f'), X('mkdir e 1ed', 'any', mod=True)], upper, cfg='r')
+    # E8 the root inode as target of every inode-addressed entry point, in every layer configuration (seed C10f)
+    cs += root_free_cases(prop, restart)
+    # E9 requests that are not type-correct (the kernel's FUSE client never sends them, a raw-protocol client can): UNLINK of a directory
+    # that only lower layers hold, UNLINK / RMDIR below a regular file / a symlink.  An ordinary file system answers EISDIR (21) /
+    # ENOTDIR (20) and changes nothing (Coq: C10_unlink_lower_dir_disagrees, C10_unlink_below_nondir_disagrees) -> C10 known findings.
+    if prop == 'C10':
+        cs.append({'id': 'xu1', 'upper': True, 'nlow': 1, 'restart': restart, 'cfg': '', 'free': True,
+                   'layers': {0: ('d', 0o755, {}, {'f': F(b'h', 821), 'd': ('d', 0o755, {}, {})}),
+                              1: ('d', 0o755, {}, {'e': ('d', 0o755, {}, {'k': F(b'lower-ek', 822)}), 'g': ('l', b'a')})},
+                   'ops': [X('unlink f/x', 'errno', mod=True, want=20, sigx={'op': 'unlink', 'parent': 'non-directory'}),
+                           X('rmdir g/x', 'errno', mod=True, want=20, sigx={'op': 'rmdir', 'parent': 'non-directory'}),
+                           X('unlink e', 'errno', mod=True, want=21, sigx={'op': 'unlink', 'target': 'lower-only-directory'}),
+                           X('readdir .')]})
     return cs
 
 def analyse_free(prop, cases, obs):
@@ -177,6 +191,16 @@ def analyse_free(prop, cases, obs):
                 w = o['raw'].split()
                 cls = 'client-creates-whiteout-device' if (w[0] == 'mknodx' and int(w[2], 16) & 0o170000 == 0o020000 and w[3] == '0' and ok) else 'restart-differs'
                 finding(k, 'after %s (errno %s) a freshly started overlay shows a different tree: live %s, restarted %s' % (o['raw'], b['ret'], v[:120], (b.get('restart') or '')[:120]), cls); break
+            if o['expect'] == 'errno':
+                # a request an ordinary file system refuses with a given errno: same errno, nothing changes.  Every such step is judged
+                # on its own (the view it started from is the one the previous step left).
+                if b['ret'] != str(o['want']) or v != prev:
+                    findings.append({'what': '%s on upper %s / lower %s returned %s%s; an ordinary file system answers %d and changes nothing'
+                                             % (o['raw'], oc.ser(c['layers'][0]), oc.ser(c['layers'][1]), b['ret'],
+                                                '' if v == prev else ' and changed the view: %s -> %s (upper directory now %s)' % (prev[:120], v[:120], (b.get('upper') or '?')[:120]),
+                                                o['want']),
+                                     'sig': dict({'class': 'rm-type-check'}, **o['sigx']), 'input': oc.replay_input(c, k)})
+                prev = v; continue
             if not c['upper']:
                 if v != ob['view0'] or (o['mod'] and ok):
                     finding(k, 'without an upper layer %s returned %s / the view changed' % (o['raw'], b['ret']), 'no-upper-modified'); break
@@ -220,3 +244,102 @@ def bigdir_cases(prop, restart):
     ops = [{'k': 'readdir', 'p': 'd'}, {'k': 'unlink', 'p': 'd/n02'}, {'k': 'create', 'p': 'd/n01', 'mode': 0o600}, {'k': 'readdir', 'p': 'd'}]
     return [{'id': 'gbigdir', 'upper': True, 'nlow': 2, 'layers': layers, 'restart': restart, 'names': ['d'] + names,
              'ops': [dict(o, dump=(i == len(ops) - 1)) for i, o in enumerate(ops)]}]
+
+# ---- the ROOT inode as target (added after seed C10f: create_upper_dir() answering Ok for the parent-less root made SETXATTR /
+# REMOVEXATTR on the root of an overlay WITHOUT upper layer write to the top-most lower directory; no generator ever aimed a
+# modifying request at the root).  Every request that takes an inode is aimed at the root (and at a merged directory and a lower
+# file) in every layer configuration {upper, no upper} x {1, 2, 3 lowers} x {root carries user xattrs in no layer / in the lowers /
+# in the upper}; every (parent, name) request is tried with parent = root.  root_cases go through the model (all predicates of
+# props/c10.py analyse(): lower dumps - which include mode, owner, mtime and xattrs of each layer's root directory itself - unchanged,
+# nothing succeeds or changes without upper, union, ordinary file system); root_free_cases are the entry points without a model
+# operation, judged by the predicates of analyse_free.
+ROOT_CONFIGS = [(u, n, x) for u in (True, False) for n in (1, 2, 3) for x in ('n', 'l', 'u') if not (x == 'u' and not u)]
+ROOT_NAMES = ['a', 'b', 'c', 'd', 'e', 'f', 'l', 'w', 'x', 'y', 'z']
+def root_layers(upper, nlow, rootx):
+    ino = [840]
+    def Fi(data, mode=0o644):
+        ino[0] += 1; return ['f', mode, bytearray(data), {}, ino[0]]
+    lows = [{'a': Fi(b'l1-a'), 'd': ('d', 0o755, {}, {'f': Fi(b'l1-df')})},
+            {'c': Fi(b'l2-c'), 'd': ('d', 0o750, {}, {'g': Fi(b'l2-dg')})},
+            {'a': Fi(b'l3-a'), 'l': ('l', b'a')}]
+    ls = {}
+    for k in range(1, nlow + 1):
+        x = {}
+        if rootx == 'l':
+            x['user.k1'] = b'L%d' % k
+            if k == nlow: x['user.k2'] = b'bottom'
+        ls[k] = ('d', [0o755, 0o711, 0o1777][k - 1], x, lows[k - 1])
+    if upper: ls[0] = ('d', 0o750, {'user.k1': b'U'} if rootx == 'u' else {}, {'b': Fi(b'up-b')})
+    return ls
+
+def root_cases(prop, restart):
+    """One history per configuration.  Target '.' in all 15 configurations; the same requests at a merged directory and a lower file,
+    and the (parent, name) requests with parent = root in full, where the root carries no xattrs (6 configurations); the other
+    no-upper configurations get one (parent, name) request of each kind.  The view is dumped (and evaluated in Coq) after the
+    requests that may change it - with an upper layer after every successful kind of change, without one after each group; the
+    harness compares the raw dump of every lower directory after EVERY request whether dumped or not."""
+    cs = []
+    for upper, nlow, rootx in ROOT_CONFIGS:
+        ops = []
+        def O(k, p, dump=None, **kw):
+            ops.append(dict(k=k, p=p, dump=(upper and (k in oc.MODIFYING)) if dump is None else dump, **kw))
+        full = rootx == 'n'
+        for tgt in (('.', 'd', 'a') if full else ('.',)):
+            O('getattr', tgt); O('listxattr', tgt); O('getxattr', tgt, name='user.k1'); O('getxattr', tgt, name='user.k9')
+            O('chmod', tgt, mode=0o700); O('getattr', tgt); O('chmod', tgt, mode=(0o640 if tgt == 'a' else 0o755), dump=True)
+            O('setxattr', tgt, name='user.k1', val=b'p'); O('getxattr', tgt, name='user.k1'); O('setxattr', tgt, name='user.k3', val=b'qq'); O('listxattr', tgt)
+            O('removexattr', tgt, name='user.k1'); O('removexattr', tgt, name='user.k1', dump=False); O('removexattr', tgt, name='user.k9', dump=True)
+            # (OPEN of a directory is not a request the kernel sends - it sends OPENDIR; with an upper layer the host accepts
+            # O_RDONLY|O_APPEND / |O_CREAT on a directory where the specification says EISDIR: those two words only without upper,
+            # where the code's mask counts them as modifying and the copy-up of the root must fail)
+            for fl in ('r', 'w', 'rw', 'r+t', 'r+a', 'r+c', 'w+t'):
+                if tgt == 'a' or not upper or fl not in ('r+a', 'r+c'): O('open', tgt, fl=fl, dump=(tgt == 'a' and upper and fl in ('w', 'r+t')))
+            O('truncate', tgt, size=2, dump=(tgt == 'a' and upper)); O('write', tgt, off=1, data=b'Z', dump=(tgt == 'a')); O('read', tgt, off=0, len=8)
+            O('readdir', tgt, dump=True)
+        # (parent, name) requests with parent = root: fresh names, existing names of every kind, a name only a lower layer holds
+        if full:
+            O('lookup', 'a'); O('lookup', 'zz')
+            O('mkdir', 'e', mode=0o755); O('mkdir', 'a', mode=0o755, dump=False); O('mkdir', 'd', mode=0o755, dump=False)
+            O('create', 'f', mode=0o644); O('create', 'a', mode=0o644, dump=False)
+            O('mknod', 'x', mode=0o600); O('mknod', 'd', mode=0o600, dump=False)
+            O('symlink', 'y', target=b'a'); O('symlink', 'd', target=b'a', dump=False)
+            O('link', 'a', q='z'); O('link', 'a', q='d', dump=False)
+            O('rename', 'a', q='w', dump=False); O('rename', 'd', q='w', dump=False)
+            O('unlink', 'a'); O('unlink', 'zz', dump=False); O('unlink', 'y'); O('rmdir', 'e'); O('rmdir', 'd', dump=False); O('rmdir', 'zz', dump=False)
+            O('mkdir', 'a', mode=0o700)
+        elif not upper:
+            O('mkdir', 'e', mode=0o755); O('create', 'f', mode=0o644); O('mknod', 'x', mode=0o600); O('symlink', 'y', target=b'a'); O('link', 'a', q='z')
+            O('rename', 'a', q='w'); O('unlink', 'a'); O('rmdir', 'd')
+        O('readdir', '.', dump=True)
+        cs.append({'id': 'r%d%d%s' % (upper, nlow, rootx), 'upper': upper, 'nlow': nlow, 'layers': root_layers(upper, nlow, rootx),
+                   'restart': restart, 'names': ROOT_NAMES, 'ops': ops})
+    return cs
+
+def root_free_cases(prop, restart):
+    cs = []
+    for upper, nlow, rootx in ROOT_CONFIGS:
+        ops = []
+        for i, sub in enumerate(['m', 'u', 'g', 'ug', 't', 'n', 'mat', 'mk', 'mug']):
+            for j, tgt in enumerate(('.', 'd', 'a')):
+                mode = [0o700, 0o711, 0o755, 0o750][(i + j) % 4]
+                ops.append(X('setattrx %s %s %x 0 12 34' % (tgt, sub, mode), 'fn', mod=True, fn=fn_setattr(tgt, sub, mode, 0), must=upper))
+        ops.append(X('setattrx . s 0 3 0 0', 'same', mod=True))          # SIZE on a directory (never sent by the kernel): must not do anything
+        # SETATTR / GETATTR / FSYNC / FLUSH / FALLOCATE / LSEEK carrying a handle of the root directory (opened O_RDONLY)
+        for sub, mode in (('m', 0o711), ('ug', 0), ('t', 0), ('mat', 0o755)):
+            ops.append(X('setattrh . r %s %x 0 12 34' % (sub, mode), 'fn', mod=True, fn=fn_setattr('.', sub, mode, 0), must=upper))
+        ops += [X('flush . r'), X('fsync . r'), X('fdatasync . r'), X('getattrh . r'), X('lseek . r 0 0'), X('fsyncdir .'),
+                X('access . 4'), X('access . 2'), X('access . 1'), X('statfs .'), X('getattr .'), X('readdir .'),
+                X('fallocate . r 0 0 10', 'same', mod=True), X('getxattr0 . user.k1'), X('listxattr0 .'), X('getxattr . user.k1'), X('listxattr .')]
+        # SETXATTR flag words, REMOVEXATTR on the root
+        ops += [X('setxattrf . user.r 76 2', 'err', mod=True), X('setxattrf . user.r 76 1', 'any', mod=True, must=upper), X('setxattrf . user.r 77 1', 'err', mod=True),
+                X('setxattrf . user.r 78 2', 'any', mod=True, must=upper), X('getxattr . user.r'), X('removexattr . user.r', 'any', mod=True, must=upper),
+                X('removexattr . user.r', 'err', mod=True), X('setxattr . user.k1 7a', 'any', mod=True, must=upper), X('removexattr . user.k1', 'any', mod=True, must=upper),
+                X('removexattr . user.k2', 'any', mod=True)]
+        # the same entry points on a lower file of this configuration, through read-only and writable handles
+        ops += [X('setattrh a r m 1a0 0 0 0', 'fn', mod=True, fn=fn_setattr('a', 'm', 0o640, 0), must=upper),
+                X('fsync a w', 'same', mod=True, must=upper), X('fallocate a rw 0 0 10', 'fn', mod=True, fn=fn_setattr('a', 's', 0, 10), must=upper),
+                X('truncateh a w 1', 'fn', mod=True, fn=fn_setattr('a', 's', 0, 1), must=upper), X('setattrh a w ug 0 0 12 34', 'fn', mod=True, fn=fn_setattr('a', 'ug', 0, 0), must=upper),
+                X('fsyncdir d'), X('read a 0 16')]
+        cs.append({'id': 'xR%d%d%s' % (upper, nlow, rootx), 'upper': upper, 'nlow': nlow, 'layers': root_layers(upper, nlow, rootx),
+                   'restart': restart, 'names': ROOT_NAMES, 'ops': ops, 'cfg': '', 'free': True})
+    return cs
